@@ -24,6 +24,18 @@ var (
 	minJsonBigInt *big.Int = big.NewInt(minJsonInt)
 )
 
+// appendJSONString appends str as a JSON string literal. Go's strconv.Quote syntax is not JSON
+// (it emits escapes such as \x01, \a, \v or \U0001F600 that JSON parsers reject).
+func appendJSONString(b []byte, str string) []byte {
+	buf := bytes.NewBuffer(b)
+	enc := json.NewEncoder(buf)
+	enc.SetEscapeHTML(false)
+	// Encoding a string cannot fail.
+	_ = enc.Encode(str)
+	// Drop the newline appended by Encode.
+	return bytes.TrimSuffix(buf.Bytes(), []byte{'\n'})
+}
+
 type jsonWriter struct {
 	buf    *bytes.Buffer
 	indent int
@@ -169,7 +181,7 @@ func (j *jsonWriter) Enum(enumtag, tag int, value uint32) {
 		if strVal == "" {
 			return fmt.Appendf(b, "\"0x%08X\"", value)
 		}
-		return strconv.AppendQuote(b, strVal)
+		return appendJSONString(b, strVal)
 	})
 }
 
@@ -209,7 +221,7 @@ func (j *jsonWriter) Struct(tag int, f func(writer)) {
 // TextString implements writer.
 func (j *jsonWriter) TextString(tag int, str string) {
 	j.encodeAppend(TypeTextString, tag, func(b []byte) []byte {
-		return strconv.AppendQuote(b, str)
+		return appendJSONString(b, str)
 	})
 }
 
